@@ -9,5 +9,6 @@ CONSTANTS
   SubDom = {}
   OtherVals = {}
   Junk = {}
+  AliasMode = "repaired"
 POSTCONDITION TraceAccepted
 CHECK_DEADLOCK FALSE
